@@ -345,14 +345,7 @@ def rules_planner_counts(A: Analysis, rep, F: Optional[PlannerFacts] = None):
             rep.check(ok2, "PL7", "lowered iff again | should_run", sp.ast,
                       "every first-visited, non-cached task is pushed for its second visit",
                       "second-visit push guard is [%s]" % " | ".join(fmt_conj(c) for c in core2))
-    # only RunExperiment overrides should_run
-    ov = [f.cls.fq.rsplit(".", 1)[1] for f in A.prog.overriders("conductor.task_types.base.TaskType", "should_run")]
-    rep.check(sorted(ov) == ["RunExperiment", "TaskType"], "PL7", "should_run overriders", None,
-              "only RunExperiment can be cached", "should_run is overridden by %s" % ov, deep=False)
-    base_sr = A.prog.find_method("conductor.task_types.base.TaskType", "should_run")
-    rets = [r for r in walk_local(base_sr.node) if isinstance(r, ast.Return)]
-    rep.check(len(rets) == 1 and norm(rets[0].value) == "True", "PL7", "base should_run is True", base_sr.node,
-              "non-experiment tasks always run", "TaskType.should_run does not return True", deep=False)
+    rule_pl7_overriders(A, rep)
 
     # PL8 provenance of tasks
     bad = []
@@ -377,6 +370,18 @@ def _ancestors(n):
     while n is not None:
         yield n
         n = getattr(n, "_parent", None)
+
+
+def rule_pl7_overriders(A: Analysis, rep):
+    """Only experiments can be treated as cached: every other task type (commands, groups, combine) is
+    re-executed in every invocation that needs it."""
+    ov = [f.cls.fq.rsplit(".", 1)[1] for f in A.prog.overriders("conductor.task_types.base.TaskType", "should_run")]
+    rep.check(sorted(ov) == ["RunExperiment", "TaskType"], "PL7", "should_run overriders", None,
+              "only RunExperiment can be cached", "should_run is overridden by %s" % ov, deep=False)
+    base_sr = A.prog.find_method("conductor.task_types.base.TaskType", "should_run")
+    rets = [r for r in walk_local(base_sr.node) if isinstance(r, ast.Return)]
+    rep.check(len(rets) == 1 and norm(rets[0].value) == "True", "PL7", "base should_run is True", base_sr.node,
+              "non-experiment tasks always run", "TaskType.should_run does not return True", deep=False)
 
 
 def rule_pl9_snapshot(A: Analysis, rep, F: Optional[PlannerFacts] = None):
